@@ -562,7 +562,34 @@ func RunC10(tier string, args []string) int {
 	}
 	total := runHWorkers(chk, "C10", tier, 16)
 	faultRuns := c10LoadFaults(chk) + c10RefreshFaults(chk)
+	// all schedules (<= 2 preemptions) of a first-use fetch with crl_cdp_strict off next to the handshake of a certificate
+	// which names no distribution point and is on no list: the pending fetch of somebody else's list never denies it
+	c13c := newC13cast()
+	bystander := world.Leaf(c13c.p.CA, bi(150), nil, nil)
+	var sreps []schedReport
+	for _, bg := range []bool{false, true} {
+		bg := bg
+		sc := &schedScenario{Name: fmt.Sprintf("lenient-bystander-during-first-fetch/background=%v", bg), NoSerialOracle: true,
+			Setup: func(x *schedCtx) {
+				w := c13c.mkWorld(x, CWOpt{SigMode: config.SignatureValidationModeVerify, Background: bg})
+				w.Net.Serve(urlA, "v1", c13c.v1)
+			},
+			Ops: []schedOp{c13c.hs(0, c13c.L1), {Name: "hs(no distribution point, unlisted)", Fn: func(x *schedCtx) string {
+				return x.W[0].Lookup(bystander, world.Chain(bystander, c13c.p.CA, c13c.p.Root)).String()
+			}}},
+			Judge: func(obs []string) (string, string) {
+				if obs[1] != "OK" {
+					return "C10|lenient-denied|bystander-during-a-pending-fetch", "crl_cdp_strict off: a certificate which names no distribution point and is on no list reads " + obs[1] + " while the list of another certificate's distribution point is fetched for the first time"
+				}
+				return "", ""
+			},
+		}
+		rep := exploreInProcess(chk, "C10", sc, 2)
+		sreps = append(sreps, rep)
+		fmt.Printf("  S %-40s execs=%d per-bound=%v outcomes=%v\n", rep.Scenario, rep.Executions, rep.PerBound, rep.Outcomes)
+	}
 	cov := fw.Coverage{
+		"schedule_scenarios": sreps,
 		"states":                        total.Stats.States + faultRuns,
 		"transitions":                   total.Stats.Transitions + 3*faultRuns,
 		"traces_validated_against_impl": total.Stats.Transitions + faultRuns,
